@@ -145,6 +145,8 @@ impl<const L: usize> BookDyn for OrderBook<L> {
                 self.reset_trade_vol();
                 Value::Null
             }
+            // a call that cannot reach the book (out-of-range integer, see PyView.tla): nothing happens
+            "bad" => Value::Null,
             _ => panic!("harness: unknown op in label {}", l),
         }
     }
